@@ -34,6 +34,41 @@ def judge(ck, beh, capq, tag, want_hit):
     return stats, events
 
 
+def race_part(ck, tier, tot):
+    """searches racing with writes that trigger tombstone compaction (index full, tombstones present): every id returned
+    must carry the true distance to that document's vector - a compaction renumbering internal ids between the graph
+    search and the id translation attributes results to other documents"""
+    import random
+    import sched_common as sched
+    rng = random.Random(vlib.seed())
+    m = {"k1": 1, "k2": 0}
+    combos = [[[{"t": "knn", "v": 3, "k": 3}], [{"t": "insert", "id": 9, "v": 5, "m": m}, {"t": "insert", "id": 10, "v": 6, "m": m}]],
+              [[{"t": "knn", "v": 1, "k": 4}, {"t": "knn", "v": 4, "k": 2}], [{"t": "insert", "id": 9, "v": 5, "m": m}, {"t": "insert", "id": 10, "v": 6, "m": m}]]]
+    tot.update({"race_schedules_enumerated": 0, "race_runs": 0, "race_rejected": 0})
+    if tier == "quick":
+        combos = combos[:1]
+    for ci, progs in enumerate(combos):
+        lockprogs, nlocks = sched.record_progs("full", progs)
+        scheds, dls = sched.enumerate_schedules(ck, lockprogs, nlocks, 2, "knn%d" % ci)
+        tot["race_schedules_enumerated"] += len(scheds)
+        take = 150 if tier == "quick" else 3000
+        if len(scheds) > take:
+            scheds = rng.sample(scheds, take)
+        reports = sched.run_many("full", progs, scheds)
+        for s_, rep in zip(scheds, reports):
+            tot["race_runs"] += 1
+            if rep["outcome"] != "completed":
+                continue
+            h = sorted(rep["history"], key=lambda x: x["seq"])
+            bad = [e for e in h if e["ev"] == "res" and e["op"]["t"] == "knn" and (not all(e["r"].get("dok", [True])) or len(set(e["r"].get("ids", []))) != len(e["r"].get("ids", [])))]
+            if bad:
+                tot["race_rejected"] += 1
+                ck.violation({"kind": "race", "state": "full", "progs": progs, "sched": s_["sched"], "history": h},
+                             "search racing with tombstone compaction returned ids with distances of other documents: %s" % json.dumps(bad[0]["r"])[:300])
+            else:
+                ck.cov["traces_validated_against_impl"] += 1
+
+
 def run(tier, pid="C06", want_hit=False):
     ck = Check(pid, tier)
     vlib.build()
@@ -57,6 +92,8 @@ def run(tier, pid="C06", want_hit=False):
             if e["ev"] == "search":
                 tot["flavours"][e["flavour"]] = tot["flavours"].get(e["flavour"], 0) + 1
                 tot["paths"][e["path"]] = tot["paths"].get(e["path"], 0) + 1
+    if not want_hit:
+        race_part(ck, tier, tot)
     if want_hit:
         # exhaustive suffixes: every 4-step sequence of Insert / Delete / Search over 2 ids x 3 points x k in {1,2} after
         # two fixed inserts (38 416 behaviours) - covers every short chain of cache store / replace / invalidate / hit
@@ -79,5 +116,12 @@ def replay(path, pid="C06", want_hit=False):
     rep = json.load(open(path))
     ck = Check(pid, "quick")
     vlib.build()
+    if rep.get("kind") == "race":
+        import sched_common as sched
+        for r in sched.run_many(rep["state"], rep["progs"], [{"sched": rep["sched"]}]):
+            print(json.dumps(sorted(r.get("history", []), key=lambda x: x["seq"]))[:1500])
+            if any(e["ev"] == "res" and e["op"]["t"] == "knn" and not all(e["r"].get("dok", [True])) for e in r.get("history", [])):
+                ck.violation(rep, "replay: wrong distances again")
+        return ck.finish()
     judge(ck, [rep["behaviour"]], rep.get("capq", 2), "replay", want_hit)
     return ck.finish()
